@@ -87,6 +87,26 @@ def check(tier):
     if tier == "quick" and len(progs) > 14000:
         progs = rnd.sample(progs, 14000)
     res = l1check.run(rep, "C02-val", progs, dbset, {"rows", "ExecError", "Panic", "rejected-wellformed"})
+    # (e) the same trees split over a derived column: the child expression is computed by `derive`, the parent refers to
+    # it by name (the SQL back end inlines the column's expression into the parent's: the parentheses must be re-derived)
+    sprogs = []
+    def strip(t):
+        if isinstance(t, dict):
+            return {k: strip(v) for k, v in t.items() if k != "tok"}
+        return t
+    for i, t in enumerate(trees):
+        tr_ = t["tree"]
+        if has_op(tr_, {"~=", "+u"}) or (tr_["t"] == "un" and tr_["op"] == "+"):
+            continue
+        kids = [("l", tr_.get("l")), ("r", tr_.get("r"))] if tr_["t"] == "bin" else [("e", tr_.get("e"))] if tr_["t"] == "un" else []
+        for pos, kid in kids:
+            if not isinstance(kid, dict) or kid.get("t") not in ("bin", "un"):
+                continue
+            parent = dict(tr_); parent[pos] = col("zz")
+            sprogs.append({"id": f"s{i}{pos}", "decl": True, "steps": [from_("t"), derive(item(strip(kid), "zz")), select(item(strip(parent), "v"))]})
+    if tier == "quick" and len(sprogs) > 5000:
+        sprogs = rnd.sample(sprogs, 5000)
+    res_s = l1check.run(rep, "C02-split", sprogs, dbset, {"rows", "ExecError", "Panic", "rejected-wellformed"})
     # (c) case / in-range / nested sub-expressions beyond the bound (rendered fully parenthesised)
     g = gen.G(seed(), safe=False, max_expr=3)
     fr = [("a", ""), ("b", ""), ("k", "")]
@@ -127,7 +147,8 @@ def check(tier):
         raise ToolError("C02 selftest: corrupted parse tree not rejected")
     st = l1.selftest(dbset.replace("dbs_expr", "dbs_quick"))
     cov = {"states": info["distinct"] + tstates, "transitions": info["generated"] + tstates,
-           "traces_validated_against_impl": nparse + res["accepted"] + res["rejected"] + res2["accepted"] + res2["rejected"],
+           "traces_validated_against_impl": nparse + res["accepted"] + res["rejected"] + res2["accepted"] + res2["rejected"] + res_s["accepted"] + res_s["rejected"],
+           "split_over_derived_column": {"programs": len(sprogs), "accepted": res_s["accepted"], "rejected": res_s["rejected"], "not_judged": res_s["skipped"]},
            "samples": [trees[0], trees[len(trees) // 2], trees[-1], {"prql": res2["side"].get("r0", {}).get("src", "")[-200:], "sql": res2["side"].get("r0", {}).get("sql")}],
            "exhaustive": True,
            "explanation": f"ExprMC grew {len(trees)} expression trees (every parent/child/side adjacency over {len(expr_cfg(tier)['ops'])} binary and {len(expr_cfg(tier)['unops'])} unary operators, depth {expr_cfg(tier)['depth']}; Parse(Show(t)) = t and Parse(ShowFull(t)) = t checked by TLC); {nparse} renderings parsed by prqlc and compared with the specification's tree (ExprTrace); {len(progs)} renderings + {len(rprogs)} random case/in/nested expressions compiled, executed on SQLite over the value domain and validated through Eval (PrqlTrace)",
